@@ -1,0 +1,31 @@
+//go:build verif
+
+package reflection
+
+import (
+	"github.com/renbou/grpcbridge/bridgedesc"
+	"google.golang.org/protobuf/reflect/protoreflect"
+	"google.golang.org/protobuf/types/descriptorpb"
+)
+
+// VerifParseFileDescriptors runs parseFileDescriptors, the function which turns the file descriptors received
+// from a target over reflection into the bridgedesc.Target (with its FileResolver and TypeResolver) used for
+// routing and transcoding, for the external verification harness (tag "verif" only).
+func VerifParseFileDescriptors(name string, svcNames []string, fds *descriptorpb.FileDescriptorSet) (*bridgedesc.Target, []string, error) {
+	full := make([]protoreflect.FullName, len(svcNames))
+	for i, n := range svcNames {
+		full[i] = protoreflect.FullName(n)
+	}
+
+	res, err := parseFileDescriptors(name, full, fds)
+	if err != nil {
+		return nil, nil, err
+	}
+
+	missing := make([]string, len(res.missingServices))
+	for i, n := range res.missingServices {
+		missing[i] = string(n)
+	}
+
+	return res.desc, missing, nil
+}
